@@ -161,6 +161,7 @@ class Ctx:
         self.used = []
         self.resolved_args = None
         self.extra = {}
+        self.pending_io_fault = None
 
     # -- handles ----------------------------------------------------------
     def resolve(self, h):
@@ -276,8 +277,6 @@ def _run_op(ctx, op, opts):
     rng_before = state.rng_fp()
     if op.get('tags', {}).get('rng_state'):
         rec['rng_state_before'] = np.random.get_state()
-    if seams.SHIM is not None:
-        io0 = seams.SHIM.count()
     clock0 = seams.CLOCK.calls
     sf0 = seams.SOLVER.fired if seams.SOLVER is not None else 0
     if0 = seams.INTERRUPT.fired
@@ -301,8 +300,9 @@ def _run_op(ctx, op, opts):
         h = rargs.get(argname)
         if isinstance(h, dict) and 'ref' in h and h['ref'] in ctx.hist:
             ctx.hist[h['ref']].append(op['id'])
+    to_store = ctx.extra.pop('__store__', result)
     if rec['outcome'] == 'ok' and op.get('store'):
-        ctx.store(op['store'], ctx.extra.pop('__store__', result))
+        ctx.store(op['store'], to_store)
     rec['hist'] = {oid: list(ctx.hist.get(oid, [])) for oid in rec['uses']}
     try:
         p = canon.plain(result)
@@ -316,8 +316,7 @@ def _run_op(ctx, op, opts):
     rec['rng_moved'] = state.rng_fp() != rng_before
     rec['clock_calls'] = seams.CLOCK.calls - clock0
     if seams.SHIM is not None:
-        rec['io_calls'] = seams.SHIM.count() - io0
-        rec['io_fired'] = seams.SHIM.fired()
+        rec['io_fired'] = int(bool(ctx.extra.get('fired')))
     rec['extra'] = ctx.extra
     rec['faults'] = {
         'solver': (seams.SOLVER.fired if seams.SOLVER is not None else 0)
